@@ -3070,6 +3070,37 @@ fn gen_c17(rng: &mut Rng, ops: &mut Vec<String>, stats: &mut Stats) {
         ops.push(format!("sresp A #p ok pong +0 {}", third4));
         ops.push("slocal A".into());
     }
+    if mode != "ip6" && rng.chance(1, 4) {
+        // directed: a leading address blocked by a rival within the margin; requests to some of the
+        // rival's voters then fail (their votes are none the older for it); a leading voter votes again:
+        // the tally is what it was, the record stays
+        stats.bump("gen.c17.directed-requests-to-rival-voters-fail");
+        let lead_n = vmin.max(3) + 1;
+        let rival_n = ((lead_n as f64) * 0.75).round() as u64;
+        let rival4 = *c4.iter().find(|c| **c != lead4).unwrap();
+        for _ in 0..n + 2 {
+            ops.push("sfail A #p".into());
+        }
+        let base = 900 + rng.range(0, 40) * 20;
+        for i in 0..lead_n + rival_n {
+            ops.push(format!("sest A k{}:1:4:0 = o", base + i));
+            if i < rival_n {
+                // (the rival's voters announce a newer record: the service asks each for it)
+                ops.push(format!("sresp A #p ok pong +1 {}", rival4));
+            } else {
+                ops.push(format!("sresp A #p ok pong +0 {}", lead4));
+            }
+        }
+        ops.push("slocal A".into());
+        for _ in 0..rng.range(1, rival_n) {
+            ops.push("sfail A #e".into());
+        }
+        let again = base + rival_n + rng.below(lead_n);
+        ops.push(format!("srm A k{}", again));
+        ops.push(format!("sest A k{}:1:4:0 = o", again));
+        ops.push(format!("sresp A #p ok pong +0 {}", lead4));
+        ops.push("slocal A".into());
+    }
     for _ in 0..m {
         let c = rng.below(100);
         if c < 70 {
